@@ -197,6 +197,36 @@ def run_segment(job):
                     break
         if n and not np.all(np.asarray(sv[0]) == 7.0):
             devs.append(('C05', 'state-not-from-start-point', f'segment {s}: state values {np.asarray(sv[0]).tolist()}; specification: the start point value 7.0'))
+        # GridSegment.tla NearParallel: the same segment ALONG a latitude grid line, tilted by a few centimetres so that it
+        # starts just below and ends just above the line (and the other way round): it changes row where it crosses the line -
+        # at its middle; before that its pieces lie in the row of the start point, after it in the row of the end point
+        if exact and s[1] == s[3] and s[1] % Q == 0 and s[0] != s[2] and not devs:
+            eps = 2e-10   # radians: about a millimetre
+            base = [((p_['cx'], p_['cy']), float(fr(p_['share']))) for p_ in case['p']]
+            for direction, (la0, la1, r0, r1) in (('rising', (lats[0] - eps, lats[0] + eps, 0, 1)), ('falling', (lats[0] + eps, lats[0] - eps, 1, 0))):
+                want2, t = [], 0.0
+                for (cx, cy), sh in base:
+                    a, b = t, t + sh
+                    t = b
+                    for lo_, hi_, row in ((a, min(b, 0.5), cy + r0), (max(a, 0.5), b, cy + r1)):
+                        if hi_ - lo_ > 1e-9:
+                            if want2 and want2[-1][0] == (cx, row):
+                                want2[-1] = ((cx, row), want2[-1][1] + hi_ - lo_)
+                            else:
+                                want2.append(((cx, row), hi_ - lo_))
+                try:
+                    tl2, to2, _, _, _, iv2 = grid_twice(f.g2, np.array([la0, la1]), lons, state_variables=(np.array([7.0, 9.0]),), integrated_variables=(np.array([VALUE]), whole_var()))
+                except Exception as e:
+                    devs += [(pr, f'near-parallel:raised-{type(e).__name__}', f'segment {s} tilted by a millimetre ({direction}): raised {type(e).__name__}: {e}') for pr in _props_of(e)]
+                    continue
+                got2 = merged([(f.cell_lon(o_), f.cell_lat(a_)) for a_, o_ in zip(tl2, to2)], [float(x) / VALUE for x in iv2[0]], 1e-9)
+                if [c_ for c_, _ in got2] != [c_ for c_, _ in want2]:
+                    devs.append(('C05', 'near-parallel:wrong-cells', f'segment {s} tilted by a millimetre across its grid line ({direction}): cells (lon, lat) {[c_ for c_, _ in got2]}; specification: {[c_ for c_, _ in want2]}'))
+                elif any(abs(x - y) > 1e-6 for (_, x), (_, y) in zip(got2, want2)):
+                    devs.append(('C05', 'near-parallel:wrong-share', f'segment {s} tilted by a millimetre ({direction}): shares {[round(x, 6) for _, x in got2]}; specification: {[round(y, 6) for _, y in want2]}'))
+                tot2 = float(np.sum(iv2[0]))
+                if not (VALUE * (1 - 1e-9) <= tot2 <= VALUE * (1 + 1e-6)):
+                    devs.append(('C04', 'near-parallel:not-conserved', f'segment {s} tilted by a millimetre ({direction}): pieces add up to {tot2 / VALUE:.9f} of the segment value'))
         return devs
     except Exception as e:
         import traceback
